@@ -22,7 +22,7 @@ import specreader
 ID = 'C02'
 TITLE = 'Written text files follow the published format; conformant files load as such'
 GEN = ['Headers', 'SpecColumns', 'FileNames', 'RecordSchemas']
-RULE = ('each case = a generated dataset and a layout seed (columns comment first / missing / after some data rows); all 14 top-level files, the three descriptor files and points3d are '
+RULE = ('each case = a generated dataset, a layout seed and what the process loaded just before (nothing / a 1.0 directory / a refused 2.0 directory) (columns comment first / missing / after some data rows); all 14 top-level files, the three descriptor files and points3d are '
         're-laid-out with per-line random choices (0-3 blanks of space/tab on each side of each field, comment/blank lines between '
         'rows, row order shuffled where the format does not number rows, LF/CRLF/CR per line, 0-3 leading zeros on timestamps, point '
         'ids and feature ids); distinct non-trivial = distinct (dataset, layout seed) with at least 5 files')
@@ -45,7 +45,9 @@ INT_COLS = {'trajectories.txt': [0], 'records_camera.txt': [0], 'records_depth.t
 
 def gen_case(rng):
     opts = kgen.Opts(p_part=rng.choice([0.5, 0.9]), id_pool=4, fancy_ids=True, max_rows=5, image_pool=5, partial_poses=True, odd_paths=True)
-    return {'d': kgen.gen_dataset(rng, opts), 'layout': rng.randrange(10 ** 9)}
+    # 'before': what the same process loaded just before (nothing, a legacy 1.0 directory, a directory of a newer version that
+    # is refused): what a conformant directory loads to must not depend on it
+    return {'d': kgen.gen_dataset(rng, opts), 'layout': rng.randrange(10 ** 9), 'before': rng.choice([None, None, '1.0', '1.0', '2.0'])}
 
 
 def cases(rng, tier):
@@ -159,6 +161,15 @@ def run_real(case):
                     f.write(text.encode('utf-8'))
                 rows = [list(r) for r in table_from_file(io.StringIO(text, newline=None))] if not rel.endswith('points3d.txt') else None
                 res['layouts'][rel] = {'lines': lines, 'eols': eols, 'text': text, 'rows': rows}
+            if case.get('before'):
+                other = os.path.join(base, 'other')
+                os.makedirs(os.path.join(other, 'sensors'))
+                with open(os.path.join(other, 'sensors', 'sensors.txt'), 'w') as f:
+                    f.write(f'# kapture format: {case["before"]}\n# sensor_id, name, sensor_type, [sensor_params]+\ncam0, , camera, SIMPLE_PINHOLE, 640, 480, 500, 320, 240\n')
+                try:
+                    kapture_from_dir(other)
+                except Exception:
+                    pass            # a newer version is refused: fine
             res['reloaded'] = kgen.describe(kapture_from_dir(b_dir))
             res['error'] = None
         except Exception as e:
